@@ -1,4 +1,5 @@
 import FatVerif.Props.C06mount
+import FatVerif.Props.C01sim
 /-!
 # C06 — the root directory of the formatted IMAGE (towards `format_root_listing_empty`)
 
@@ -99,5 +100,68 @@ theorem format_root_first_slots (o : FormatOpts) (d0 d1 : Dev) (hpre : Formattab
     (`C06mount`); the END-marker fact is closed by evaluation above. -/
 example : Formattable Ex.o16 Ex.d16 ∧ Ex.o16.label = some [65, 66, 67, 32, 32, 32, 32, 32, 32, 32, 32] :=
   ⟨ex_formattable, rfl⟩
+
+/-! ## the program-level statement (added by agent-effects, using the directory-read simulation of `Props/C01sim`) -/
+
+/-- **`format_then_list_root_empty`** (FAT12/16): format a device, mount it as the next call sees it, list the root
+    directory: the listing is empty, and nothing is written. Kept hypotheses, all about the mounted state `fs` that
+    `format_then_mount` returns (whose conclusion does not expose `first_data_sector`/`root_dir_sectors`): the root slice of
+    `fs` is the region `format_volume` initialised (`hpos`, `hlen`), it consists of `N` whole slots fewer than the scan
+    fuel, and lies inside the device. -/
+theorem format_then_list_root_empty (o : FormatOpts) (d0 d1 : Dev) (hpre : Formattable o d0)
+    (hrun : run (formatVolume o) d0 = (.ok (), d1)) (strict accDate lfnAlloc unicode : Bool) :
+    ∃ boot ft fs d2, formatChecked o (fmtTotal o d0) = .ok (boot, ft) ∧
+      run (mount strict accDate lfnAlloc unicode) (nextOp d1) = (.ok fs, d2) ∧
+      (ft ≠ .fat32 → ∀ N, (rootSliceOf fs).beginOff = rootPos boot.bpb → (rootSliceOf fs).size = rootLen boot.bpb ft →
+        rootLen boot.bpb ft = 32 * N → N < dirFuel fs → rootPos boot.bpb + rootLen boot.bpb ft ≤ d1.img.size →
+        ∃ d3, run (listDir (rootDirStream fs)) d2 = (.ok [], d3) ∧ d3.img = d2.img ∧ d3.log = d2.log) := by
+  obtain ⟨boot, ft, fs, d2, hc, hm, hfs, himg, _, hft, _⟩ := format_then_mount o d0 d1 hpre hrun strict accDate lfnAlloc unicode
+  obtain ⟨boot', ft', hc', h64, hb⟩ := format_root_image o d0 d1 hpre hrun
+  rw [hc] at hc'
+  cases hc'
+  refine ⟨boot, ft, fs, d2, hc, hm, ?_⟩
+  intro h32 N hpos hlen hN hfuel hins
+  have hfail : d2.failAt = none := ((run_facts _ _ hm).spent rfl).1
+  have hR : DirSim.RootReadable d2 N :=
+    ⟨hfail, by rw [hfs, hpos, hlen, himg]; exact hins, by rw [hfs, hlen]; exact hN, by rw [hfs]; exact hfuel⟩
+  have hstream : rootDirStream fs = DirSim.rootAt d2.fs 0 := by
+    rw [hfs]
+    unfold rootDirStream
+    cases hft' : fs.fatType with
+    | fat32 => rw [hft] at hft'; exact absurd hft' h32
+    | fat12 => rfl
+    | fat16 => rfl
+  have hN2 : 2 ≤ N := by omega
+  have hbyte : ∀ x, x < rootLen boot.bpb ft → d2.img.getByte ((rootSliceOf d2.fs).beginOff + x) = rootByte o x := by
+    intro x hx; rw [hfs, hpos, himg]; exact hb x hx
+  have hzero : ∀ (off : Nat), off + 32 ≤ rootLen boot.bpb ft → (∀ k, k < 32 → rootByte o (off + k) = 0) →
+      Lfn.isEnd (d2.img.read ((rootSliceOf d2.fs).beginOff + off) 32) = true := by
+    intro off hoff hz
+    simp only [Lfn.isEnd, Lfn.byte]
+    rw [Img.read_getD _ _ _ _ (by omega), Nat.add_zero, hbyte off (by omega)]
+    have := hz 0 (by omega); rw [Nat.add_zero] at this; rw [this]; rfl
+  have hempty : DirSim.Evals (listDir (DirSim.rootAt d2.fs 0)) d2 [] := by
+    apply DirSim.listDir_root_empty hR
+    cases hl : o.label with
+    | none =>
+      left
+      refine ⟨by omega, ?_⟩
+      have := hzero 0 (by omega) (fun k _ => by unfold rootByte; rw [hl])
+      rwa [Nat.add_zero] at this
+    | some lbl =>
+      right
+      refine ⟨hN2, ?_, hzero 32 (by omega) (fun k hk => ?_)⟩
+      · rw [hbyte 11 (by omega)]
+        unfold rootByte; rw [hl]
+        simp only [show (11 : Nat) < 32 by omega, if_true]
+        have hll := hpre.rng.label lbl hl
+        unfold DirFileEntryData.serialize
+        rw [List.getD_eq_getElem?_getD, List.getElem?_append_right (by simp [DirFileEntryData.new]; omega)]
+        simp [DirFileEntryData.new, DirFileEntryData.serializeTail, hll, ATTR_VOLUME_ID]
+      · unfold rootByte; rw [hl]
+        simp only [show ¬ (32 + k < 32) by omega, if_false]
+  obtain ⟨d3, hr3, hs3⟩ := hempty
+  rw [← hstream] at hr3
+  exact ⟨d3, hr3, hs3.img, hs3.log⟩
 
 end FatVerif.C06root
